@@ -1,38 +1,35 @@
 // Counterexample for property C13, obligation T2.cc: get_range[s,e): exactly the in-range keys with a value, each once, ascending by key - for every hash-map iteration order
 // harness db::cached_database::block_cached_database::verif_t::t2_range_two_cached; failing checks:
-//   assertion failed: contains(&r, keys[i], v) @ db::cached_database::block_cached_database::verif_t::range_check (src/db/cached_database/block_cached_database.rs:711)
-//   assertion failed: sorted(&r) @ db::cached_database::block_cached_database::verif_t::range_check (src/db/cached_database/block_cached_database.rs:717)
+//   assertion failed: r.len() == expect @ db::cached_database::block_cached_database::verif_t::range_check (src/db/cached_database/block_cached_database.rs:718)
 // Replay: ./check C13 --replay /verif/evidence/replay/C13_T2.cc.rs  (appends this test to the harness module of a scratch copy
-// with the overlay applied and runs `cargo kani playback -Z concrete-playback -- kani_concrete_playback_t2_range_two_cached_3549158076815734575`)
+// with the overlay applied and runs `cargo kani playback -Z concrete-playback -- kani_concrete_playback_t2_range_two_cached_6497724748133329299`)
 #[test]
-fn kani_concrete_playback_t2_range_two_cached_3549158076815734575() {
+fn kani_concrete_playback_t2_range_two_cached_6497724748133329299() {
     let concrete_vals: Vec<Vec<u8>> = vec![
         // 0
         vec![0],
-        // 1ul
-        vec![1, 0, 0, 0, 0, 0, 0, 0],
-        // 128
-        vec![128],
-        // 136
-        vec![136],
+        // 2ul
+        vec![2, 0, 0, 0, 0, 0, 0, 0],
+        // 216
+        vec![216],
+        // 149
+        vec![149],
         // 1
         vec![1],
+        // 119
+        vec![119],
         // 1
         vec![1],
         // 0
         vec![0],
-        // 4611686018427387903ul
-        vec![255, 255, 255, 255, 255, 255, 255, 63],
-        // 4611686018427387903ul
-        vec![255, 255, 255, 255, 255, 255, 255, 63],
+        // 3996794549303736183ul
+        vec![119, 119, 119, 119, 119, 119, 119, 55],
+        // 144115188075855872ul
+        vec![0, 0, 0, 0, 0, 0, 0, 2],
         // 128
         vec![128],
-        // 136
-        vec![136],
-        // 1
-        vec![1],
-        // 0ul
-        vec![0, 0, 0, 0, 0, 0, 0, 0],
+        // 149
+        vec![149],
     ];
     kani::concrete_playback_run(concrete_vals, t2_range_two_cached);
 }
